@@ -34,6 +34,9 @@ CONSTANTS NW,          \* threads_max
           MemT,        \* memlimit_threading (abstract units)
           Gives,       \* set of input amounts the application may add per call (model checking)
           Spaces,      \* set of output space grants per call
+          Copies,      \* the file is this many identical Streams ...
+          Pad,         \* ... each followed by this many bytes of Stream Padding (zeros)
+          Concat,      \* BOOLEAN: LZMA_CONCATENATED
           EarlyTailError, \* BOOLEAN: see RunTailEarlyError (TRUE only for trace validation)
           MaxReinit,   \* how often the application may re-initialise the handle without lzma_end()
           CountCalls   \* BOOLEAN: count lzma_code calls (history variable for bounding; FALSE for liveness checking)
@@ -50,34 +53,56 @@ Min(a, b) == IF a < b THEN a ELSE b
 -----------------------------------------------------------------------------
 (* Sequential reference: what lzma_stream_decoder does with the same bytes. *)
 
-OutAfter(b, j) == IF Blocks[b].insz = 0 THEN Blocks[b].outsz ELSE (Blocks[b].outsz * j) \div Blocks[b].insz
-
-\* offset of Block b's header in the file; BlkOff[NB+1] = offset of the Index
-BlkOff[b \in 1..(NB+1)] == IF b = 1 THEN HdrSz ELSE BlkOff[b-1] + Blocks[b-1].bh + Blocks[b-1].insz
-FullLen == BlkOff[NB+1] + TailSz
+\* With LZMA_CONCATENATED the file is Copies identical Streams, each followed by Pad zero bytes.  Blocks are
+\* numbered globally: g in 1..Copies*NB; GB(g) is the Block record, CopyOf(g) the (0-based) Stream it is in.
+NBT == Copies * NB
+GB(g) == Blocks[((g - 1) % NB) + 1]
+CopyOf(g) == (g - 1) \div NB
+StreamOut == LET S[i \in 0..NB] == IF i = 0 THEN 0 ELSE S[i-1] + Blocks[i].outsz IN S[NB]
+StreamData == LET S[i \in 0..NB] == IF i = 0 THEN 0 ELSE S[i-1] + Blocks[i].bh + Blocks[i].insz IN S[NB]
+StreamLen == HdrSz + StreamData + TailSz
+\* file offset at which Stream k (0-based) starts
+StreamOff(k) == k * (StreamLen + Pad)
+\* offset of Block g's header in the file; for the position after the last Block of a Stream use TailOff
+BlkOff[g \in 1..NBT] ==
+    IF (g - 1) % NB = 0 THEN StreamOff(CopyOf(g)) + HdrSz ELSE BlkOff[g-1] + GB(g-1).bh + GB(g-1).insz
+TailOff(k) == StreamOff(k) + HdrSz + StreamData
+FullLen == Copies * (StreamLen + Pad)
 
 \* Sequential decoding of the first n bytes of the file: [out |-> bytes delivered, ret |-> final code]
-RECURSIVE StFrom(_, _, _)
-StFrom(b, n, acc) ==
-    IF b > NB THEN
-        IF n < BlkOff[b] + TailSz THEN [out |-> acc, ret |-> "BUF_ERROR"]
-        ELSE [out |-> acc, ret |-> IF TailOk THEN "STREAM_END" ELSE "DATA_ERROR"]
-    ELSE LET B == Blocks[b] off == BlkOff[b] IN
+\* (LZMA_FINISH at the end of those bytes; with Concat the decoder goes on after a Stream)
+RECURSIVE StStream(_, _, _), StBlocks(_, _, _, _)
+StBlocks(k, j, n, acc) ==          \* Block j (1-based within Stream k)
+    IF j > NB THEN
+        IF n < TailOff(k) + TailSz THEN [out |-> acc, ret |-> "BUF_ERROR"]
+        ELSE IF ~TailOk THEN [out |-> acc, ret |-> "DATA_ERROR"]
+        ELSE IF ~Concat THEN [out |-> acc, ret |-> "STREAM_END"]
+        ELSE \* Stream Padding, then possibly the next Stream
+             LET padHave == Min(Pad, n - (TailOff(k) + TailSz)) IN
+             IF padHave < Pad \/ k + 1 >= Copies \/ n <= StreamOff(k + 1)
+             THEN [out |-> acc, ret |-> IF padHave % 4 = 0 THEN "STREAM_END" ELSE "DATA_ERROR"]
+             ELSE IF Pad % 4 # 0 THEN [out |-> acc, ret |-> "DATA_ERROR"]
+             ELSE StStream(k + 1, n, acc)
+    ELSE LET g == k * NB + j  B == GB(g)  off == BlkOff[g] IN
         IF n < off + B.bh THEN [out |-> acc, ret |-> "BUF_ERROR"]
         ELSE IF B.hdr = "bad" THEN [out |-> acc, ret |-> "OPTIONS_ERROR"]
         ELSE LET have == Min(B.insz, n - off - B.bh) IN
-             IF B.errAt > 0 /\ have >= B.errAt THEN [out |-> acc + OutAfter(b, B.errAt - 1), ret |-> "DATA_ERROR"]
-             ELSE IF have < B.insz THEN [out |-> acc + OutAfter(b, have), ret |-> "BUF_ERROR"]
-             ELSE StFrom(b + 1, n, acc + B.outsz)
+             IF B.errAt > 0 /\ have >= B.errAt THEN [out |-> acc + ((B.outsz * (B.errAt - 1)) \div (IF B.insz = 0 THEN 1 ELSE B.insz)), ret |-> "DATA_ERROR"]
+             ELSE IF have < B.insz THEN [out |-> acc + (IF B.insz = 0 THEN B.outsz ELSE (B.outsz * have) \div B.insz), ret |-> "BUF_ERROR"]
+             ELSE StBlocks(k, j + 1, n, acc + B.outsz)
+StStream(k, n, acc) ==
+    IF n < StreamOff(k) + HdrSz THEN [out |-> acc, ret |-> "BUF_ERROR"] ELSE StBlocks(k, 1, n, acc)
 
-St(n) == IF n < HdrSz THEN [out |-> 0, ret |-> "BUF_ERROR"] ELSE StFrom(1, n, 0)
+St(n) == StStream(0, n, 0)
 
-\* absolute position in the sequential output of the first byte of Block b
-OutBase[b \in 1..(NB+1)] == IF b = 1 THEN 0 ELSE OutBase[b-1] + Blocks[b-1].outsz
+OutAfter(g, j) == IF GB(g).insz = 0 THEN GB(g).outsz ELSE (GB(g).outsz * j) \div GB(g).insz
+
+\* absolute position in the sequential output of the first byte of Block g
+OutBase[g \in 1..(NBT+1)] == IF g = 1 THEN 0 ELSE OutBase[g-1] + GB(g-1).outsz
 
 \* The Block decoder of a worker (model checking): consume up to `limit`, at most Chunk per call.
 DecodeStep(b, ip, limit) ==
-    LET B == Blocks[b]
+    LET B == GB(b)
         target == Min(limit, ip + Chunk)
     IN IF B.errAt > 0 /\ B.errAt > ip /\ B.errAt <= target
        THEN [ip |-> B.errAt, op |-> OutAfter(b, B.errAt - 1), ret |-> "ERR"]
@@ -89,7 +114,7 @@ MInit == [pc |-> "out", act |-> "RUN", inAvail |-> 0, given |-> 0, outSpace |-> 
           seq |-> "HDR", blk |-> 1, pos |-> 0, thr |-> 0, pendingErr |-> "OK", outWasFilled |-> FALSE,
           waitingAllowed |-> FALSE, rwFrom |-> "none", rwInput |-> FALSE, rwWait |-> FALSE, rwRet |-> "OK",
           canStart |-> FALSE, hasBlocked |-> FALSE, loopI |-> 0, nInit |-> 0, dIn |-> 0, dOut |-> 0,
-          orderOk |-> TRUE, copyBad |-> FALSE, space0 |-> 0, reinits |-> 0]
+          orderOk |-> TRUE, copyBad |-> FALSE, space0 |-> 0, reinits |-> 0, copy |-> 0]
 CInit == [free |-> <<>>, threadErr |-> "OK", outq |-> <<>>, readPos |-> 0, memInUse |-> 0, sigM |-> FALSE]
 TInit == [state |-> "IDLE", inFilled |-> 0, partial |-> "DIS", sig |-> FALSE, pc |-> "none", blk |-> 0,
           inPos |-> 0, outPos |-> 0, snapIn |-> 0, snapPartial |-> "DIS", ret |-> "OK", inBuf |-> "none"]
@@ -147,8 +172,8 @@ Drain(q, rp, sp, del, en) ==
                       IN Drain(q3, 0, sp - n, del + n, en2)
                  ELSE [q |-> Tail(q), rp |-> 0, sp |-> sp - n, del |-> del + n, ret |-> h.ret, en |-> en]
 
-OutqMem(q) == LET S[i \in 0..Len(q)] == IF i = 0 THEN 0 ELSE S[i-1] + Blocks[q[i].b].outsz + 1 IN S[Len(q)]
-NextBlockMem == IF m.blk <= NB THEN Blocks[m.blk].mem + Blocks[m.blk].outsz + 1 ELSE 0
+OutqMem(q) == LET S[i \in 0..Len(q)] == IF i = 0 THEN 0 ELSE S[i-1] + GB(q[i].b).outsz + 1 IN S[Len(q)]
+NextBlockMem == IF m.blk <= (m.copy + 1) * NB THEN GB(m.blk).mem + GB(m.blk).outsz + 1 ELSE 0
 
 RWBody ==
     /\ m.pc = "rw"
@@ -213,7 +238,7 @@ AfterRW ==
                         ELSE [m EXCEPT !.pc = "tiget"]
                    [] m.rwFrom = "THRRUN" ->
                         IF m.pendingErr # "OK" THEN [m EXCEPT !.seq = "ERROR", !.pc = "run"]
-                        ELSE IF t[m.thr].inFilled < Blocks[m.blk].insz THEN Ret(m, "OK")
+                        ELSE IF t[m.thr].inFilled < GB(m.blk).insz THEN Ret(m, "OK")
                         ELSE [m EXCEPT !.thr = 0, !.seq = "BLKHDR", !.blk = m.blk + 1, !.pc = "run"]
                    [] m.rwFrom = "DIRECTINIT" ->
                         IF c.outq # <<>> THEN Ret(m, "OK") ELSE [m EXCEPT !.pc = "endsig", !.loopI = 0]
@@ -245,7 +270,7 @@ DirectRunTo(r) ==
 
 \* model checking: a deterministic Block decoder that stops when the output space runs out
 DirectStep ==
-    LET B == Blocks[m.blk]
+    LET B == GB(m.blk)
         tgtIn == Min(B.insz, m.dIn + m.inAvail)
         hitErr == B.errAt > 0 /\ B.errAt > m.dIn /\ B.errAt <= tgtIn
         safeIn == IF hitErr THEN B.errAt - 1 ELSE tgtIn     \* consumable without reporting the error
@@ -271,8 +296,8 @@ RunOther ==
                   \* no input: cannot even look at the first byte
                   IF m.act = "FINISH" /\ FailFast THEN FailFastTruncated
                   ELSE StartRW(m, "BLKHDR", FALSE, m.waitingAllowed)
-              ELSE IF m.blk > NB THEN [m EXCEPT !.seq = "IDXWAIT"]          \* Index Indicator
-              ELSE LET B == Blocks[m.blk]
+              ELSE IF m.blk > (m.copy + 1) * NB THEN [m EXCEPT !.seq = "IDXWAIT"]          \* Index Indicator
+              ELSE LET B == GB(m.blk)
                        n == Min(m.inAvail, B.bh - m.pos)
                        m1 == [m EXCEPT !.inAvail = m.inAvail - n, !.progress = (m.progress \/ n > 0)]
                    IN IF m.pos + n < B.bh THEN
@@ -284,7 +309,7 @@ RunOther ==
                       ELSE [m1 EXCEPT !.pos = 0, !.seq = "THRINIT"]
          [] m.seq = "THRINIT" -> StartRW(m, "THRINIT", TRUE, TRUE)
          [] m.seq = "THRRUN" ->
-              IF m.act = "FINISH" /\ FailFast /\ m.inAvail < Blocks[m.blk].insz - t[m.thr].inFilled
+              IF m.act = "FINISH" /\ FailFast /\ m.inAvail < GB(m.blk).insz - t[m.thr].inFilled
               THEN FailFastTruncated
               ELSE [m EXCEPT !.pc = "copy"]
          [] m.seq = "DIRECTINIT" -> StartRW(m, "DIRECTINIT", FALSE, TRUE)
@@ -293,7 +318,22 @@ RunOther ==
               LET n == Min(m.inAvail, TailSz - m.pos)
                   m1 == [m EXCEPT !.inAvail = m.inAvail - n, !.progress = (m.progress \/ n > 0)]
               IN IF m.pos + n < TailSz THEN Ret([m1 EXCEPT !.pos = m.pos + n], "OK")
-                 ELSE Ret([m1 EXCEPT !.pos = 0], IF TailOk THEN "STREAM_END" ELSE "DATA_ERROR")
+                 ELSE IF ~TailOk THEN Ret([m1 EXCEPT !.pos = 0], "DATA_ERROR")
+                 ELSE IF ~Concat THEN Ret([m1 EXCEPT !.pos = 0], "STREAM_END")
+                 ELSE [m1 EXCEPT !.pos = 0, !.seq = "PADDING"]
+         [] m.seq = "PADDING" ->
+              \* SEQ_STREAM_PADDING: skip zero bytes (pos counts them modulo 4); a non-zero byte starts the next Stream
+              LET consumed == m.given - m.inAvail
+                  padEnd == StreamOff(m.copy) + StreamLen + Pad
+                  n == Min(m.inAvail, padEnd - consumed)
+                  m1 == [m EXCEPT !.inAvail = m.inAvail - n, !.progress = (m.progress \/ n > 0), !.pos = (m.pos + n) % 4]
+              IN IF m.inAvail - n = 0 THEN
+                     \* no more input in this call
+                     IF m.act # "FINISH" THEN Ret(m1, "OK")
+                     ELSE Ret(m1, IF m1.pos = 0 THEN "STREAM_END" ELSE "DATA_ERROR")
+                 ELSE \* the next byte is the first byte of the next Stream Header (non-zero)
+                     IF m1.pos # 0 THEN Ret([m1 EXCEPT !.inAvail = @ - 1, !.progress = TRUE], "DATA_ERROR")
+                     ELSE [m1 EXCEPT !.pos = 0, !.seq = "HDR", !.copy = m.copy + 1, !.blk = (m.copy + 1) * NB + 1]
          [] m.seq = "ERROR" ->
               IF FailFast THEN Ret(m, PendingCode) ELSE StartRW(m, "ERROR", FALSE, TRUE)
 
@@ -313,9 +353,9 @@ TiGet ==
     /\ m.pc = "tiget"
     /\ IF c.free # <<>>
        THEN /\ m' = [m EXCEPT !.thr = c.free[1], !.pc = "tisetup"]
-            /\ c' = [c EXCEPT !.free = Tail(c.free), !.memInUse = c.memInUse + Blocks[m.blk].mem]
+            /\ c' = [c EXCEPT !.free = Tail(c.free), !.memInUse = c.memInUse + GB(m.blk).mem]
        ELSE /\ m' = [m EXCEPT !.pc = "ticreate"]
-            /\ c' = [c EXCEPT !.memInUse = c.memInUse + Blocks[m.blk].mem]
+            /\ c' = [c EXCEPT !.memInUse = c.memInUse + GB(m.blk).mem]
     /\ UNCHANGED t
 
 \* initialize_new_thread(): mythread_create; the new worker starts at the top of worker_decoder()
@@ -357,14 +397,14 @@ TiPartial ==
 Copy ==
     /\ m.pc = "copy"
     /\ m' = [m EXCEPT !.pc = "publish",
-                      !.copyBad = m.copyBad \/ (Min(m.inAvail, Blocks[m.blk].insz - t[m.thr].inFilled) > 0
+                      !.copyBad = m.copyBad \/ (Min(m.inAvail, GB(m.blk).insz - t[m.thr].inFilled) > 0
                                                 /\ t[m.thr].inBuf # "alloc")]
     /\ UNCHANGED <<c, t>>
 
 \* thr.mutex: in_filled := cur, signal; then read_output_and_wait
 Publish ==
     /\ m.pc = "publish"
-    /\ LET n == Min(m.inAvail, Blocks[m.blk].insz - t[m.thr].inFilled) IN
+    /\ LET n == Min(m.inAvail, GB(m.blk).insz - t[m.thr].inFilled) IN
        /\ t' = SigW([t EXCEPT ![m.thr].inFilled = @ + n], m.thr)
        /\ m' = StartRW([m EXCEPT !.inAvail = m.inAvail - n, !.progress = (m.progress \/ n > 0)],
                        "THRRUN", FALSE, m.waitingAllowed /\ m.inAvail - n = 0)
@@ -476,7 +516,7 @@ WFinCoder(w) ==
                                                     !.ret = IF ok THEN "END" ELSE "DATA_ERROR"],
                               !.threadErr = IF ~ok /\ c.threadErr = "OK" THEN "DATA_ERROR" ELSE c.threadErr,
                               !.free = IF ok THEN <<w>> \o c.free ELSE c.free,
-                              !.memInUse = IF ok THEN c.memInUse - Blocks[t[w].blk].mem ELSE c.memInUse])
+                              !.memInUse = IF ok THEN c.memInUse - GB(t[w].blk).mem ELSE c.memInUse])
     /\ t' = [t EXCEPT ![w].pc = "check"]
     /\ UNCHANGED m
 
